@@ -370,7 +370,8 @@ def proof_phase(run, tier, workdir):
 
 def run_check(prop, tier, replay=None):
     run = vlib.Run(prop, tier, "model_checking")
-    rng = random.Random(run.seed * 7919 + hash(prop) % 1000)
+    run.write_evidence = replay is None
+    rng = random.Random(run.seed * 7919 + int(prop[1:]))
     workdir = vlib.scratch_dir(prop)
     try:
         # (A) in a thread, (B) meanwhile
@@ -389,6 +390,8 @@ def run_check(prop, tier, replay=None):
         binary = vlib.build_harness(workdir)
         if replay is not None:
             rp = json.load(open(replay))["replay"]
+            if rp.get("kind") == "cache":
+                raise vlib.Infra("replay of a cache history: re-run the full C04 check (histories are regenerated by TLC)")
             sc = rp["scenario"]
             small, big = ([], [sc]) if sc.get("sparse") else ([sc], [])
         else:
@@ -559,7 +562,7 @@ def report(run, prop, layer, f, sc, group):
         if known_match(k, sc, f):
             run.known(k, what)
             return
-    run.violation(what, dict(scenario=sc, layer=layer, operator=f["name"], event_index=f["line"] - 1,
+    run.violation(what, dict(family="engine", scenario=sc, layer=layer, operator=f["name"], event_index=f["line"] - 1,
                              trace=[{kk: vv for kk, vv in e.items() if kk != "st"} for e in evs][:400],
                              tlc=f["tlc"][:3000]))
 
